@@ -298,3 +298,97 @@ def method_cases(task, tier, seed=0):
             elif wt == 'bit' and len(arg_domain(m, an, wt)) > 1:
                 vec[k] = bool(rnd.getrandbits(1))
         yield m, tuple(vec), rnd.choice(chans), -1000000
+
+
+# ---------------------------------------------------------------------------
+# Content-header space (shared by C02, C04, C07, C19)
+
+NSET = len(SETTABLE)   # 13
+
+
+def _others_subsets(idx, tier):
+    """Presence masks over the 12 other settable properties."""
+    others = [i for i in range(NSET) if i != idx]
+    if tier == 'thorough':
+        sizes = range(len(others) + 1)
+    else:
+        sizes = [0, 1, 2, len(others) - 2, len(others) - 1, len(others)]
+    for k in sizes:
+        for combo in itertools.combinations(others, k):
+            mask = 0
+            for i in combo:
+                mask |= 1 << i
+            yield mask
+
+
+def header_tasks(tier):
+    out = [('subsets', s, s + 512) for s in range(0, 1 << NSET, 512)]
+    out += [('alts', i) for i in range(NSET)]
+    out += [('pairs', i) for i in range(NSET)]
+    out += [('unset',), ('sizes',)]
+    return out
+
+
+def header_cases(task, tier, seed=0):
+    """Yield (props dict, body_size, channel) for one task."""
+    sizes, chans = A.BODY_SIZE, A.CHANNEL
+    kind = task[0]
+    if kind == 'subsets':
+        for mask in range(task[1], task[2]):
+            yield (props_for_subset(mask),
+                   sizes[(mask + seed) % len(sizes)],
+                   chans[(mask // 7 + seed) % len(chans)])
+    elif kind == 'alts':
+        idx = task[1]
+        name, wire_type, _b = SETTABLE[idx]
+        for j, alt in enumerate(prop_value_domain(name, wire_type)):
+            for mask in _others_subsets(idx, tier):
+                yield (props_for_subset(mask | (1 << idx), {name: alt}),
+                       sizes[(mask + j) % len(sizes)],
+                       chans[(mask + j) % len(chans)])
+    elif kind == 'pairs':
+        i = task[1]
+        n1, t1, _ = SETTABLE[i]
+        for k in range(i + 1, NSET):
+            n2, t2, _ = SETTABLE[k]
+            d1 = prop_value_domain(n1, t1)
+            d2 = prop_value_domain(n2, t2)
+            if tier != 'thorough':
+                d1, d2 = d1[:4], d2[:4]
+            for a in d1:
+                for b in d2:
+                    for base in (0, (1 << NSET) - 1):
+                        yield (props_for_subset(
+                            base | (1 << i) | (1 << k), {n1: a, n2: b}),
+                            1, 1)
+    elif kind == 'unset':
+        # '' is the documented spelling of "unset" for string properties
+        strs = [i for i, (n, t, _b) in enumerate(SETTABLE) if t == 'shortstr']
+        for i in strs:
+            name = SETTABLE[i][0]
+            for mask in _others_subsets(i, 'quick'):
+                props = props_for_subset(mask)
+                props[name] = ''
+                yield props, 3, 2
+        props = {SETTABLE[i][0]: '' for i in strs}
+        yield props, 0, 0
+        yield {'cluster_id': ''}, 0, 0
+        yield {'headers': {}}, 0, 0     # an empty table is *set*
+    elif kind == 'sizes':
+        full = props_for_subset((1 << NSET) - 1)
+        for s in sizes:
+            for ch in chans:
+                yield {}, s, ch
+                yield dict(full), s, ch
+        import random
+        rnd = random.Random(seed)
+        for _ in range(8):
+            yield ({'priority': rnd.randint(0, 255)},
+                   rnd.randint(0, 2**64 - 1), rnd.randint(0, 65535))
+
+
+def construct_header(props, body_size):
+    import pamqp.commands
+    import pamqp.header
+    return pamqp.header.ContentHeader(
+        0, body_size, pamqp.commands.Basic.Properties(**props))
